@@ -71,6 +71,49 @@ func raceCheck(args []string) {
 			{"EncodeToGroup(shared msg, oversize dst)", func() []byte { return secp.EncodeToGroup(msg, dstLong).Encode() }},
 			{"HashToScalar(shared msg, oversize dst)", func() []byte { return secp.HashToScalar(msg, dstLong).Encode() }},
 		}
+		// per-goroutine arguments (nothing shared but the package itself): distinct oversize and ordinary DSTs, distinct messages
+		var dstLongs, dsts, msgs [G][]byte
+		for g := 0; g < G; g++ {
+			dstLongs[g] = r.bytes(256 + r.intn(80))
+			dsts[g] = r.dst(false)
+			msgs[g] = r.msg()
+		}
+		type gscen struct {
+			name string
+			f    func(g int) []byte
+		}
+		gscens := []gscen{
+			{"HashToScalar(per-goroutine oversize dst)", func(g int) []byte { return secp.HashToScalar(msg, dstLongs[g]).Encode() }},
+			{"HashToGroup(per-goroutine oversize dst)", func(g int) []byte { return secp.HashToGroup(msgs[g], dstLongs[g]).Encode() }},
+			{"EncodeToGroup(per-goroutine dst)", func(g int) []byte { return secp.EncodeToGroup(msgs[g], dsts[g]).Encode() }},
+			{"mixed API (goroutine g runs scenario g)", func(g int) []byte { return scens[(g*5+round)%len(scens)].f() }},
+		}
+		for _, s := range gscens {
+			var want [G][]byte
+			for g := 0; g < G; g++ {
+				want[g] = s.f(g)
+			}
+			var wg sync.WaitGroup
+			got := make([][]byte, G)
+			for g := 0; g < G; g++ {
+				wg.Add(1)
+				go func(g int) {
+					defer wg.Done()
+					got[g] = s.f(g)
+				}(g)
+			}
+			wg.Wait()
+			rep.Scenarios++
+			rep.Calls += G
+			for g := 0; g < G; g++ {
+				if !bytes.Equal(got[g], want[g]) {
+					rep.Mismatches = append(rep.Mismatches, fmt.Sprintf("%s: goroutine %d returned %x, sequential run %x", s.name, g, got[g], want[g]))
+				}
+			}
+			if round == 0 {
+				rep.Samples = append(rep.Samples, s.name)
+			}
+		}
 		for _, s := range scens {
 			want := s.f()
 			var wg sync.WaitGroup
